@@ -683,6 +683,9 @@ class Prefix:
         if self._initialized:
             # a prefix that was first created anonymously (as the result of some
             # arithmetic, say) can still be given its name and symbol later
+            if (self.base, self.exponent) != (base, exponent):
+                # Prefix(base, 0) is the identity prefix, which is nobody's to name
+                return
             if name and not self.name:
                 self.name = name
                 self._by_name[name] = self
